@@ -29,7 +29,7 @@ from .c07 import FULL, SMALL, TINY
 TYPES = {'Foo': A.Foo, 'FooBar': A.FooBar, 'Foo_': A.Foo_, 'BFoo': B.Foo, 'JFoo': A.JFoo, 'P2': A.P2,
          'Leaf': A.Leaf, 'BLeaf': B.Leaf, 'NoCacheT': A.NoCacheT, 'PFoo': A.PFoo, 'SFoo': A.SFoo}
 OUTER = ('Foo', 'FooBar', 'Foo_', 'BFoo', 'JFoo', 'P2', 'PFoo', 'NoCacheT', 'SFoo')
-QUERY_TYPES = (A.Foo, A.FooBar, A.Foo_, B.Foo, A.JFoo, A.P2, A.PFoo, A.Leaf, B.Leaf, A.NoCacheT, A.SFoo)
+QUERY_TYPES = (A.Foo, A.FooBar, A.Foo_, B.Foo, A.JFoo, A.P2, A.PFoo, A.Leaf, B.Leaf, A.NoCacheT, A.SFoo, A.DFoo)
 
 
 class AltPickle(PickleCache):
@@ -59,6 +59,8 @@ def run_group(args):
         storage = LocalStorage(tmp) if storage_kind == 'local' else LocalFsspecStorage(tmp)
     try:
         tasks = [TYPES[tn](p=build(tree, types=TYPES)) for tn, tree in group]
+        # a parameter whose default is not None: explicitly None, left at the default, nested
+        tasks += [A.DFoo(p=len(group), q=None), A.DFoo(p=len(group)), A.Foo(p=[A.DFoo(p='n', q=None)])]
         WORLD.reset(epoch=1)
         lab = labtech.Lab(storage=storage, runner_backend='serial', notebook=False)
         # every other group runs under a frozen clock: start at the epoch boundary, duration exactly zero
